@@ -232,5 +232,28 @@ def view_ShardStateUnsplit (v : Val) : Val :=
     ("libraries", viewDictRaw 256 (r.get "libraries")), ("master_ref", viewMaybe view_BlkMasterInfo (r.get "master_ref")),
     ("custom", viewMaybe view_McStateExtra (v.get "custom"))]
 
+/-- `ShardState`: `_` (an unsplit state) / `split_state#5f327da5` (two unsplit states by reference) -/
+def view_ShardState : Val → Val
+  | .con "_" x => Rd.obj "ShardState" [("type_", Rd.str "_"), ("shard_state_unsplit", view_ShardStateUnsplit x)]
+  | .con "split_state" x =>
+    Rd.obj "ShardState" [("type_", Rd.str "split_state"), ("left", view_ShardStateUnsplit (x.get "left")),
+      ("right", view_ShardStateUnsplit (x.get "right"))]
+  | _ => .unit
+
+/-- a `HashmapAugE` the parser keeps as its root cell: `None` (empty) / "a cell" (declared: presence only) -/
+def presenceOfAugE : Val → Val
+  | .con "ahme_root" _ => .con "cell" .unit
+  | _ => .unit
+
+/-- `McBlockExtra` (`masterchain_block_extra#cca5`): `shard_fees` by presence (the parser keeps the root cell and skips the top-level
+    extra), the fields of the `^[ … ]` group flattened (`prev_blk_signatures`: keys with raw Slices; the two `^InMsg` as cells),
+    `config` iff `key_block` -/
+def view_McBlockExtra (v : Val) : Val :=
+  let r := v.get "_ref1"
+  Rd.obj "McBlockExtra" [("key_block", v.get "key_block"), ("shard_hashes", view_ShardHashes (v.get "shard_hashes")),
+    ("shard_fees", presenceOfAugE (v.get "shard_fees")), ("prev_blk_signatures", viewDictRaw 16 (r.get "prev_blk_signatures")),
+    ("recover_create_msg", r.get "recover_create_msg"), ("mint_msg", r.get "mint_msg"),
+    ("config", viewMaybe view_ConfigParams (v.get "config"))]
+
 end Blk
 end TonVerif.Tlb
